@@ -3,11 +3,11 @@
    the implementation).  The last section keeps, for the record, the refutations about the code as it was before those
    repairs (definitions named [_prefix]).  Squared error / fast path / configuration: any commutative ring or ordered field,
    axiom-free.  Relative-entropy derivatives: over R with Coquelicot (standard real-number axioms). *)
-From Coq Require Import Reals Arith List QArith Qcanon Lra Lia.
+From Coq Require Import Reals Arith List QArith Qcanon Lra Lia String.
 From Coquelicot Require Import Coquelicot.
 From QV.Core Require Import OF Sums Mat QcOF ROF.
-From QV.Model Require Import C12_Loss.
-From QV.Proofs Require Import C12_Loss C12_Config C12_RelEntropy C12_RelEntropyR C12_CovPD C12_Main.
+From QV.Model Require Import C12_Loss C12_Mixed C12_Dispatch.
+From QV.Proofs Require Import C12_Loss C12_Config C12_RelEntropy C12_RelEntropyR C12_CovPD C12_PDInverse C12_Mixed C12_Dispatch C12_Main.
 Import ListNotations.
 
 (* ================= squared error: value, gradient, Hessian (any commutative ring) ================= *)
@@ -56,6 +56,20 @@ Theorem C12_simple_quadratic_taylor : forall (R : CR) n (ref v h : @vec R),
   (forall i, (i < n)%nat -> sq_grad ref (vadd v h) i = cadd R (sq_grad ref v i) (mv n sq_hess h i)).
 Proof. exact main_simple_quadratic_taylor. Qed.
 Print Assumptions C12_simple_quadratic_taylor.
+
+(* schedules with DIFFERENT numbers of outcomes (the repaired generic classes cut matA / vecB / data by each schedule's own
+   count): the loss is the sum over the schedules of the one-schedule loss; it is the sum of the defining formulas, and
+   gradient / Hessian are its derivatives (exact second-order expansion), for any list of schedules of any sizes *)
+Theorem C12_se_mixed_outcome_counts : forall (R : CR) nv (Bs : list (@sblock R)) (v h : @vec R),
+  mix_value nv Bs v = mix_spec nv Bs v /\
+  (blocks_sym Bs ->
+     mix_value nv Bs (vadd v h)
+     = cadd R (cadd R (mix_value nv Bs v) (dot nv (mix_grad nv Bs v) h)) (qfm nv (mix_hess_half nv Bs v) h)) /\
+  (forall al, mix_grad nv Bs (vadd v h) al
+     = cadd R (mix_grad nv Bs v al)
+              (mv nv (fun a c => cadd R (mix_hess_half nv Bs v a c) (mix_hess_half nv Bs v a c)) h al)).
+Proof. exact main_se_mixed_outcome_counts. Qed.
+Print Assumptions C12_se_mixed_outcome_counts.
 
 (* ================= fast path = generic path ================= *)
 
@@ -127,6 +141,20 @@ Theorem C12_modes_effective : forall (R : CR) md (c : @wts R) k (cur : @wts R) m
 Proof. exact main_modes_effective. Qed.
 Print Assumptions C12_modes_effective.
 
+(* the string-level decision tables (Model/C12_Dispatch.v; coq/gen/C12_Equiv.v re-proves on every run that the tables
+   REGENERATED from the Python source equal them): the state-machine model is their interpretation, every mode an option
+   object can hold has a branch that installs weights, and an option that is given weights holds mode "custom" *)
+Theorem C12_decision_tables : forall (R : CR),
+  (forall md (c : @wts R) k (cur : @wts R), set_weights_by_mode md c k cur = run_action (action_of md) c k cur) /\
+  (forall (cm : bool) (c cur : option (@vec R)),
+     config_re cm c cur = run_action_re (re_dispatch (Some (if cm then "custom" else "identity")%string)) c cur) /\
+  (forall mw hw mw', option_accepts se_modes mw hw = OOk mw' ->
+     se_dispatch mw' = AReset \/ se_dispatch mw' = ACustom \/ exists ub, se_dispatch mw' = AInverse ub) /\
+  (forall mw hw mw', option_accepts re_modes mw hw = OOk mw' -> re_dispatch mw' = AReset \/ re_dispatch mw' = ACustom) /\
+  (forall mw, option_accepts se_modes mw true = OOk (Some "custom"%string) /\ option_accepts re_modes mw true = OOk (Some "custom"%string)).
+Proof. exact main_decision_tables. Qed.
+Print Assumptions C12_decision_tables.
+
 (* the result of a configuration depends only on (mode, option weights, data), not on the object's history *)
 Theorem C12_configuration_history_independent : forall (R : CR) m md (c : @wts R) k (cur cur' : @wts R) (st st' : @fstate R),
   config_generic md c k cur = config_generic md c k cur' /\ config_fast m md c k st = config_fast m md c k st'.
@@ -164,6 +192,23 @@ Theorem C12_inverse_covariance_block_positive_definite : forall (F : OF) k (q : 
     ((forall a, (a < k)%nat -> mv k (extracted F q ncov n32) x a = c0 F) -> forall i, (i < k)%nat -> x i = c0 F).
 Proof. exact main_regularised_block_positive_definite. Qed.
 Print Assumptions C12_inverse_covariance_block_positive_definite.
+
+(* ... hence it HAS a two-sided inverse, and only one, for every outcome count (a symmetric positive definite matrix over an
+   ordered field is invertible: induction on the dimension with the Schur complement): np.linalg.inv is never handed a
+   singular matrix and the inverse-covariance construction cannot fail *)
+Theorem C12_inverse_covariance_block_is_invertible : forall (F : OF) k (q : @vec F) ncov n32,
+  (forall i, (i < k)%nat -> kle F (c0 F) (q i)) -> kle F (sumn k q) (c1 F) ->
+  kle F (c0 F) ncov -> ncov <> c0 F -> kle F (c0 F) n32 -> n32 <> c0 F ->
+  exists inv, is_inverse F k (extracted F q ncov n32) inv /\
+    forall inv', is_inverse F k (extracted F q ncov n32) inv' -> meq k k inv' inv.
+Proof. exact extracted_has_inverse. Qed.
+Print Assumptions C12_inverse_covariance_block_is_invertible.
+
+(* every symmetric positive definite matrix has an inverse (the general statement behind the previous theorem) *)
+Theorem C12_positive_definite_symmetric_matrix_has_inverse : forall (F : OF) k (M : @mat F),
+  msym k M -> posdef F k M -> exists inv, is_inverse F k M inv.
+Proof. exact posdef_sym_has_inverse. Qed.
+Print Assumptions C12_positive_definite_symmetric_matrix_has_inverse.
 
 (* the oracle np.linalg.inv: what the executed check certifies determines the inverse uniquely; the covariance
    block that is inverted is symmetric *)
@@ -361,6 +406,11 @@ Example C12_ex_option_reuse : exists os',
   run_fast_o 2 [OConfig 7 MInvSample None (Some (wW 3)); OConfig 7 MInvSample None (Some (wW 5)); OConfig 8 MInvSample None (Some (wW 3))]
              {| o_st := @fresh Qc_OF; o_opt := None |} = COk os' /\ o_opt os' = Some 8%nat.
 Proof. eexists. split; reflexivity. Qed.
+(* two schedules with 3 and 2 outcomes, symmetric weights on the first, none on the second *)
+Example C12_ex_mixed_blocks : @blocks_sym Qc_OF
+  [ {| b_m := 3; b_A := wA; b_b := wz; b_q := wz; b_W := Some (wW 3 O) |};
+    {| b_m := 2; b_A := wA; b_b := wz; b_q := wz; b_W := None |} ].
+Proof. intros B [<-|[<-|[]]]; cbn; [|exact I]. intros j _ x y _ _. unfold wW. now rewrite Bool.andb_comm. Qed.
 (* a configured fast relative-entropy object without weights is a valid starting state *)
 Example C12_ex_re_history : rstate_ok 2 {| r_w := None; r_ew := @None (@vec Qc_OF) |}.
 Proof. exact I. Qed.
